@@ -13,8 +13,8 @@ Definition ftrig (f : option bool) : trig :=
   {| t_filter := f; t_depth := None; t_time := None; t_size := None;
      t_trace_on := false; t_trace_off := false; t_trace := false; t_caller := false |}.
 (* option sets of this stage: -F / -N per function (table [flt]), -D gd *)
-Definition fcfg (flt : N -> option bool) (fm : bool) (gd ms : N) (sh : shape) : cfg :=
-  {| trig_of := fun a => ftrig (flt a); fmode_in := fm; has_caller := false; gdepth := gd; threshold := 0;
+Definition fcfg (flt : N -> option bool) (fm : bool) (gd thr ms : N) (sh : shape) : cfg :=
+  {| trig_of := fun a => ftrig (flt a); fmode_in := fm; has_caller := false; gdepth := gd; threshold := thr;
      max_stack := ms; sym_size := fun _ => 0; shp := sh |}.
 
 Definition E_ (a t d : N) : rec := {| r_time := t; r_type := ENTRY; r_depth := d; r_addr := a |}.
@@ -22,21 +22,23 @@ Definition X_ (a t d : N) : rec := {| r_time := t; r_type := EXIT; r_depth := d;
 
 (* documented meaning (doc/uftrace-record.md, FILTERS): -N f hides f and everything it calls; with -F,
    only the -F functions and what they call are shown; -D limits the nesting shown, counted from the
-   outermost shown function and counted afresh inside a -F function. *)
-Fixpoint sel (flt : N -> option bool) (gd : N) (x : sctx) (d : N) (k : call) : list rec :=
+   outermost shown function and counted afresh inside a -F function; -t hides a selected call that did
+   not run longer than the threshold unless one of its callees is shown. *)
+Fixpoint sel (flt : N -> option bool) (gd thr : N) (x : sctx) (d : N) (k : call) : list rec :=
   match k with
   | Call a t0 t1 kids =>
       if dead x then []
       else match flt a with
            | Some false => []
            | Some true =>
-               E_ a t0 d :: flat_map (sel flt gd {| dead := false; scope := true; budget := gd - 1 |} (d + 1)) kids
-               ++ [X_ a t1 d]
+               let ks := flat_map (sel flt gd thr {| dead := false; scope := true; budget := gd - 1 |} (d + 1)) kids in
+               if (thr <? t1 - t0) || negb (is_nil ks) then E_ a t0 d :: ks ++ [X_ a t1 d] else []
            | None =>
                if scope x && (0 <? budget x)
-               then E_ a t0 d :: flat_map (sel flt gd {| dead := false; scope := scope x; budget := budget x - 1 |}
-                                               (d + 1)) kids ++ [X_ a t1 d]
-               else flat_map (sel flt gd x d) kids
+               then let ks := flat_map (sel flt gd thr {| dead := false; scope := scope x; budget := budget x - 1 |}
+                                                (d + 1)) kids in
+                    if (thr <? t1 - t0) || negb (is_nil ks) then E_ a t0 d :: ks ++ [X_ a t1 d] else []
+               else flat_map (sel flt gd thr x d) kids
            end
   end.
 
